@@ -584,16 +584,18 @@ static void wlTimedFuture() {
   sim_note("deferred", deferred);
   sim_note("pool", nThreads);
   sim_note("stalled", stalledPool);
-  dispenso::ThreadPool pool((size_t)nThreads);
+  // everything the queued functors touch is declared before the pool: ~ThreadPool still runs queued work
   SimLatch release(1);
+  bool done = false;
+  int funcTid = -1;
+  int work = 0;
+  dispenso::ThreadPool pool((size_t)nThreads);
   if (stalledPool) {
     // occupy every worker so the future's functor stays queued
     for (int i = 0; i < nThreads; ++i)
       pool.schedule([&release]() { release.wait(); }, dispenso::ForceQueuingTag());
   }
-  bool done = false;
-  int funcTid = -1;
-  int work = range(0, 30);
+  work = range(0, 30);
   dispenso::Future<int> f(
       [&]() {
         funcTid = sim_tid();
